@@ -574,6 +574,7 @@ struct World
       }
       if (ctx.events != ev0)
         ++effective;
+      ctx.state(plan.cfg.gets("text") + "@" + std::to_string(i) + (read_error ? "E" : "") + (failed ? "F" : "") + (dead ? "D" : ""));
       ctx.end_op();
     }
     stream.reset();
